@@ -58,7 +58,23 @@ def run(ctx):
     if not s2:
         raise vf.Infra("random harness produced no summary:\n" + r2.out[-3000:])
 
-    for rec in r1.of("bad") + r2.of("bad"):
+    # query sequences on one live calculator (WindowSeq.tla): the answer for an instant must not depend on the history
+    sq = (3, 2) if q else (4, 3)
+    seqcfg = lambda dev: ("CONSTANTS MinCycle = 2 MaxCycle = %d MaxTol = %d SeqMaxCycle = %d SeqLen = %d Dev = {%s} Emit = FALSE\n"
+                          "INIT SeqInit\nNEXT SeqNext\nINVARIANTS HistoryFree\n" % (hi, tol, sq[0], sq[1], dev))
+    seq_ideal = ctx.tlc("WindowSeq", "MCseq.cfg", files={"MCseq.cfg": seqcfg("")})
+    if seq_ideal.violated:
+        raise vf.Infra("ideal WindowSeq violates %s (specification error)" % seq_ideal.violated)
+    rs = ctx.tlc("WindowSeq", "MCseqdev.cfg", files={"MCseqdev.cfg": seqcfg('"DevMemoisedLastWindow"')}, expect_violation=True)
+    if not rs.violated:
+        raise vf.Infra("deviation DevMemoisedLastWindow is not caught by HistoryFree (vacuous)")
+    caught["DevMemoisedLastWindow"] = rs.violated
+    r3 = ctx.gotest("sleep", HF, "^TestZZVWindowSeq$", env={"ZZV_IN": inp, "ZZV_TRIPLES": 200 if q else 3000}, timeout=1500)
+    s3 = (r3.of("summary") or [None])[0]
+    if not s3:
+        raise vf.Infra("sequence harness produced no summary:\n" + r3.out[-3000:])
+
+    for rec in r1.of("bad") + r2.of("bad") + r3.of("bad"):
         prim = [f for f in ("NextWindow", "IsInWindow", "PreviousWindow", "TimeUntilWindow", "GetWindowInfo", "windowOffset")
                 if f in rec["funcs"]][0]
         key = "Window:%s:%s" % (rec["class"], prim)   # class of the failing input + first function that is wrong
@@ -69,9 +85,13 @@ def run(ctx):
             where = "cycle %sns window %sns tolerance %sns offset %sns (agent %s), instant %sns relative to the epoch %s" % (
                 rec["cycle_ns"], rec["window_ns"], rec["tolerance_ns"], rec["offset_ns"], rec.get("agent"), rec.get("t_ns"),
                 rec["epoch"])
-        ctx.finding(key, "%s: %s wrong: real %s, acceptable next-window starts %s, acceptable in-window answers %s%s" % (
+        hist = ""
+        if rec.get("history_dependent"):
+            hist = (" - a fresh calculator answers this instant correctly; the live calculator had been asked before: %s"
+                    % vf.canon(rec.get("asked_before_on_the_same_calculator")))
+        ctx.finding(key, "%s: %s wrong: real %s, acceptable next-window starts %s, acceptable in-window answers %s%s%s" % (
             where, ",".join(rec["funcs"]), vf.canon(rec.get("real")), rec.get("oracle_next"), rec.get("oracle_in"),
-            " (exactly the deviating transcription)" if rec.get("as_dev") else ""), rec)
+            " (exactly the deviating transcription)" if rec.get("as_dev") else "", hist), rec)
 
     drift = r1.of("drift")
     if drift and not ctx.violations:
@@ -82,16 +102,22 @@ def run(ctx):
                  assumptions=["grid: one model time unit = 1 s; epochs 1970-01-01, 2026-03-01 and 1999-12-31 (+03:00)",
                               "instants within +-100 years of the epoch (time.Duration saturates at +-292 years)",
                               "the identity enters only through windowOffset(); identifiers are crafted (grid) or random"],
-                 evaluations=s1["evaluations"] + s2["evaluations"],
-                 distinct_nontrivial=s1["classes"] + s2["classes"],
+                 evaluations=s1["evaluations"] + s2["evaluations"] + s3["queries"],
+                 distinct_nontrivial=s1["classes"] + s2["classes"] + s3["classes"],
                  rule="TLC enumerates cycle %d..%d, window < cycle, tolerance 0..%d, every offset 0..cycle-window-1 and every "
                       "instant -2*cycle..3*cycle (%d vectors), checks transcription-vs-oracle and prints oracle sets; each vector "
                       "runs on the real WindowCalculator for 3 epochs; then %d seeded random cases (ns-granular cycles up to "
                       "3 days, random identifiers, instants up to +-100 years, half of them on/next to window and tolerance "
                       "boundaries) against the Go transcription of the oracle (cross-checked with TLC's on the grid).  "
+                      "Then query SEQUENCES on one live calculator per configuration: every ordered pair of instants (same "
+                      "agent; a third of them alternating with a second agent), all triples for cycles <= 3 and seeded random "
+                      "triples otherwise, every answer judged by the oracle of its own instant (WindowSeq.tla: history freedom); "
+                      "each random case is followed by an earlier/later instant and the first instant again on the same calculator.  "
                       "distinct_nontrivial counts distinct (before/at/after epoch, oracle answer sets, epoch) classes."
                       % (lo, hi, tol, len(vecs), n),
                  exhaustive=False, tlc_vectors=len(vecs), deviations_caught=caught,
+                 sequence_model_states=seq_ideal.distinct, live_calculators=s3["calculators"], query_sequences=s3["sequences"],
+                 sequence_queries=s3["queries"], sequence_bad=s3["bad"], sequence_bad_classes=s3["bad_classes"],
                  vector_evaluations=s1["evaluations"], vector_bad=s1["bad"], vector_bad_classes=s1["bad_classes"],
                  transcription_drift=s1["drift"], random_cases=n, random_bad=s2["bad"], random_bad_classes=s2["bad_classes"],
-                 samples=(s1.get("samples") or [])[:3] + (s2.get("samples") or [])[:3])
+                 samples=(s1.get("samples") or [])[:3] + (s2.get("samples") or [])[:2] + (s3.get("samples") or [])[:2])
